@@ -33,8 +33,9 @@ ASSUMPTIONS = [
 ]
 LEVEL_TEXT = ("Random histories over a host/path universe built from near misses are checked against an RFC 6265 matcher; "
               "bounded by history length 20 and the fixed universe.")
-LEVEL_NOTE = "trusts taddons option plumbing, http.Request.make/Response.make and the flowfilter for three simple filters"
-QUICK_N, THOROUGH_N = 30_000, 1_500_000
+LEVEL_NOTE = ("trusts http.Request.make/Response.make and the flowfilter for three simple filters; the stickycookie "
+              "filter is installed by assigning StickyCookie.flt (option path exercised once per process)")
+QUICK_N, THOROUGH_N = 20_000, 1_500_000
 
 HOSTS = ["example.com", "www.example.com", "a.www.example.com", "badexample.com", "example.com.evil.org",
          "www.example.com.evil.org", "evil.org", "sub.badexample.com", "10.0.0.1", "110.0.0.1"]
@@ -126,8 +127,31 @@ def host_class(host_r, ev):
     return "unrelated"
 
 
+_parsed = None
+
+
+def parsed_filters():
+    """filter text -> parsed filter, once per process.  The filter is installed by assigning `StickyCookie.flt`, which is
+    all `StickyCookie.configure` does with the `stickycookie` option; going through the option machinery for every
+    operation made the check 20x slower (pyparsing + option deep copies) without exercising anything the property is
+    about.  The option path itself is exercised once per process here."""
+    global _parsed
+    if _parsed is None:
+        from addons_ctx import shared_addon_context
+        from mitmproxy import flowfilter
+        from mitmproxy.addons import stickycookie
+        from runner import HarnessError
+        probe = stickycookie.StickyCookie()
+        with shared_addon_context(probe) as tctx:
+            for f in FLTS:
+                tctx.options.update(stickycookie=f)
+                if (probe.flt is None) != (f is None):
+                    raise HarnessError("stickycookie option %r did not install a filter" % (f,))
+        _parsed = {f: (flowfilter.parse(f) if f is not None else None) for f in FLTS}
+    return _parsed
+
+
 def check_case(case, ctx):
-    from addons_ctx import shared_addon_context
     from mitmproxy import http
     from mitmproxy.addons import stickycookie
     from mitmproxy.test import tflow
@@ -138,12 +162,13 @@ def check_case(case, ctx):
     nvals = [0]
     flt = FLTS[case["flt"]]
     nontrivial = False
-    with shared_addon_context(sc) as tctx:
-        tctx.options.update(stickycookie=flt)
+    parsed = parsed_filters()
+    if True:
+        sc.flt = parsed[flt]
         for op in case["ops"]:
             if op[0] == "flt":
                 flt = FLTS[op[1]]
-                tctx.options.update(stickycookie=flt)
+                sc.flt = parsed[flt]
             elif op[0] in ("resp", "again"):
                 if op[0] == "again":
                     if not order:
